@@ -694,7 +694,7 @@ func (fr *Frame) applyContract(st *State, ct *Contract, callee *ssa.Function, si
 					}
 				}()
 				t := env.resolveType(tn)
-				conds = append(conds, tEq(sx("dtype", "r!q"), tInt(int64(vc.p.typeID(t)))))
+				conds = append(conds, tEq(sx("dtype", "r!q"), tInt(int64(vc.p.objID(t)))))
 			}()
 		}
 		if len(conds) == 0 {
@@ -995,7 +995,7 @@ func (e *SEnv) modTargets(ms []SExpr) []modTarget {
 					e.fail("objects(\"type\") expects a string literal")
 				}
 				t := e.resolveType(lit.V)
-				out = append(out, modTarget{kind: "type", tid: vc.p.typeID(t)})
+				out = append(out, modTarget{kind: "type", tid: vc.p.objID(t)})
 				continue
 			}
 			e.fail("modifies: unsupported target")
